@@ -193,7 +193,7 @@ fn rec_lines() -> Vec<Vec<u8>> {
 
 fn run(c: &mut Ctx) {
     let rec = std::sync::Arc::new(rec_lines());
-    let cases = c.tier.pick(6_000, 150_000);
+    let cases = c.tier.pick(16_000, 300_000);
     let r = c.proptest(cases, pair_strategy(rec.clone()), |c, p, counting| {
         check_pair(p)?;
         if counting {
@@ -218,7 +218,7 @@ fn run(c: &mut Ctx) {
         c.fail(m, "c19:presentation", json!({"kind":"pair","p":p}));
         return;
     }
-    let cases = c.tier.pick(8_000, 200_000);
+    let cases = c.tier.pick(20_000, 400_000);
     let r = c.proptest(cases, (valid_history(), prop::bool::weighted(0.2)), |c, (steps, relaxed), counting| {
         let ok = check_neutral(steps, *relaxed)?;
         if counting {
